@@ -102,7 +102,9 @@ pub fn to_lossy_bytes(input: &str) -> Cow<[u8]> {
         // allowing unwrap because we should never get to a position where we cannot have one
         let (cow, _, error) = current_encoding.encode(char_as_bytes);
 
-        if !error {
+        // A non-ascii character that comes out as ascii was approximated (i.e. Shift_JIS turns
+        // the yen sign into a backslash): treat that as unencodable in this codepage.
+        if !error && !cow.is_ascii() {
             output.extend_from_slice(&cow);
             continue;
         }
@@ -121,7 +123,7 @@ pub fn to_lossy_bytes(input: &str) -> Cow<[u8]> {
 
             // try to encode the current character
             let (cow, _, error) = candidate_encoding.encode(char_as_bytes);
-            if error {
+            if error || cow.is_ascii() {
                 // this codepage doesnt match, try the next one
                 continue;
             }
